@@ -268,11 +268,21 @@ MUTANTS = [
     ("sparse_transpose_conjugates", "bempp_cl/api/assembly/discrete_boundary_operator.py", "return SparseDiscreteBoundaryOperator(self.to_sparse().transpose())", "return SparseDiscreteBoundaryOperator(self.to_sparse().transpose().conjugate())", 0, ["C14"]),
     ("rank_one_transpose_not_exchanged", "bempp_cl/api/assembly/discrete_boundary_operator.py", "return DiscreteRankOneOperator(self._row, self._column)", "return DiscreteRankOneOperator(self._column, self._row)", 0, ["C14"]),
     ("diagonal_adjoint_not_conjugated", "bempp_cl/api/assembly/discrete_boundary_operator.py", "return DiagonalOperator(self._values.conjugate())", "return DiagonalOperator(self._values)", 0, ["C14"]),
+    ("invert_l2g_any_instead_of_each", "bempp_cl/api/space/space.py", "            if local_multipliers[elem_index, local_index] != 0:\n                global2local_map[dof].append((elem_index, local_index))", "            if _np.all(local_multipliers[elem_index] != 0):\n                global2local_map[dof].append((elem_index, local_index))", 0, ["C16", "C09"]),
+    ("invert_l2g_positive_only", "bempp_cl/api/space/space.py", "            if local_multipliers[elem_index, local_index] != 0:\n                global2local_map[dof]", "            if local_multipliers[elem_index, local_index] > 0:\n                global2local_map[dof]", 0, ["C16", "C09"]),
+    ("dense_matmat_real_test_on_operand_only", "bempp_cl/api/assembly/discrete_boundary_operator.py", "        if _np.iscomplexobj(x) and not _np.iscomplexobj(self.to_dense()):\n            return self.to_dense().dot(_np.real(x)", "        if _np.iscomplexobj(x) and self.dtype == _np.float64:\n            return self.to_dense().dot(_np.real(x)", 0, ["C14"]),
+    ("dense_add_in_place_on_operand", "bempp_cl/api/assembly/discrete_boundary_operator.py", "            return DenseDiscreteBoundaryOperator(self.to_dense() + other.to_dense())", "            total = self.to_dense()\n            total += other.to_dense()\n            return DenseDiscreteBoundaryOperator(total)", 0, ["C18", "C14"]),
+    ("dense_neg_in_place_view", "bempp_cl/api/assembly/discrete_boundary_operator.py", "        return DenseDiscreteBoundaryOperator(-self.to_dense())", "        mat = _np.asarray(self._impl)\n        mat *= -1\n        return DenseDiscreteBoundaryOperator(mat)", 0, ["C18", "C14"]),
+    ("sparse_assembler_drops_parameters", "bempp_cl/core/sparse_assembler.py", "super().__init__(domain, dual_to_range, parameters)", "super().__init__(domain, dual_to_range)", 0, ["C18", "C07"]),
+    ("singular_assembler_drops_parameters", "bempp_cl/core/singular_assembler.py", "super().__init__(domain, dual_to_range, parameters)", "super().__init__(domain, dual_to_range)", 0, ["C18", "C07"]),
     ("potential_rule_in_closure_global", "bempp_cl/core/numba_assemblers.py", "    def evaluator(x):\n        \"\"\"Actually evaluate the potential.\"\"\"\n", "    def evaluator(x):\n        \"\"\"Actually evaluate the potential.\"\"\"\n        quad_points, quad_weights = rule(parameters.quadrature.regular)\n", 0, ["C18"]),
 ]
 
 # behaviour-preserving rewrites: every listed check must stay silent (exit 0)
 EQUIVALENTS = [
+    ('eq_invert_l2g_row_local', 'bempp_cl/api/space/space.py', "        for local_index, dof in enumerate(local2global_map[elem_index]):\n            if local_multipliers[elem_index, local_index] != 0:", "        row = local_multipliers[elem_index]\n        for local_index, dof in enumerate(local2global_map[elem_index]):\n            if row[local_index] != 0:", 0, ['C16', 'C09']),
+    ('eq_dense_add_copy_then_in_place', 'bempp_cl/api/assembly/discrete_boundary_operator.py', "            return DenseDiscreteBoundaryOperator(self.to_dense() + other.to_dense())", "            total = self.to_dense().copy()\n            total += other.to_dense()\n            return DenseDiscreteBoundaryOperator(total)", 0, ['C18', 'C14']),
+    ('eq_dense_assembler_parameters_keyword', 'bempp_cl/core/dense_assembler.py', "super().__init__(domain, dual_to_range, parameters)", "super().__init__(domain, dual_to_range, parameters=parameters)", 0, ['C18', 'C07']),
     ('eq_rwg_count_local', 'bempp_cl/api/space/maxwell_spaces.py', '                if len(supported_neighbors) == 2:\n                    if edge_dofs[edge_index]:', '                n_sup = len(supported_neighbors)\n                if n_sup == 2:\n                    if edge_dofs[edge_index]:', 0, ['C09']),
     ('eq_rwg_sentinel_full', 'bempp_cl/api/space/maxwell_spaces.py', '    edge_dofs = -_np.ones(number_of_edges, dtype=_np.int32)', '    edge_dofs = _np.full(number_of_edges, -1, dtype=_np.int32)', 0, ['C09', 'C16']),
     ('eq_p1_interior_inline', 'bempp_cl/api/space/scalar_spaces.py', '            node_is_interior = len(non_support_neighbors) == 0 and not grid_data.vertex_on_boundary[vertex]\n            if include_boundary_dofs or node_is_interior:', '            if include_boundary_dofs or (len(non_support_neighbors) == 0 and not grid_data.vertex_on_boundary[vertex]):', 0, ['C09']),
